@@ -54,6 +54,14 @@ func genRef(t *rapid.T, l string) svc.LogValueRef {
 	case 6, 7, 8:
 		return svc.LogValueRef{Dynamic: true, Offset: uint64(rapid.IntRange(4, 8).Draw(t, l+"dyn"))}
 	}
+	if rapid.Bool().Draw(t, l+"wrap") {
+		// far outside every log, but a multiple of a power of two away from a word that exists: offsets
+		// whose byte position (x32) or word index wraps to a small one in 32-bit (or narrower) arithmetic
+		w := rapid.IntRange(27, 31).Draw(t, l+"wrapBits")
+		k := uint64(rapid.IntRange(1, 1<<(32-w)-1).Draw(t, l+"wrapK"))
+		j := uint64(rapid.IntRange(0, 6).Draw(t, l+"wrapJ"))
+		return svc.LogValueRef{Dynamic: rapid.Bool().Draw(t, l+"d"), Offset: k<<w + 4 + j}
+	}
 	return svc.LogValueRef{Dynamic: rapid.Bool().Draw(t, l+"d"), Offset: rapid.SampledFrom([]uint64{100, 1 << 16, 1<<32 - 1}).Draw(t, l+"big")}
 }
 
@@ -557,7 +565,7 @@ type c17Case struct {
 
 func TestC17_DefinitionAndMatch(t *testing.T) {
 	rec := recorder("C17")
-	rec.AddRule("(a) generated definitions (every operator, topic offsets 0-3, static and dynamic data references, offsets up to 2^32-1, 0-4 predicates, integers 0/1/2^256-1/2^256/random, byte arguments of length 0/1/31/32/33/64/70; invalid variants labelled) crossed with logs built relative to the definition (0-4 topics, head/tail ABI layout aimed at satisfying or just missing each predicate, then hostile edits: truncation around word boundaries, offset/length words set to n-33..n+1, 2^16, 2^31, 2^32, 2^62, 2^63, 2^64-1). Oracles: Validate ok => Unmarshal(Marshal(d)) == d; Validate ok => ToFilterQuery succeeds; Match never panics, allocates <= 64 KiB + 4*(|data|+|args|), equals the reference semantics of docs/event.md whenever every reference lies inside the log; Match => log passes an independent eth_getLogs filter evaluation of ToFilterQuery. non-trivial = dynamic reference pointing outside the data, topic BytesEq whose argument is not 32 bytes, or a log matching all (>=1) predicates")
+	rec.AddRule("(a) generated definitions (every operator, topic offsets 0-3, static and dynamic data references, offsets up to 2^32-1 incl. k*2^w+4+j (w=27..31: positions that wrap onto existing words in narrow arithmetic), 0-4 predicates, integers 0/1/2^256-1/2^256/random, byte arguments of length 0/1/31/32/33/64/70; invalid variants labelled) crossed with logs built relative to the definition (0-4 topics, head/tail ABI layout aimed at satisfying or just missing each predicate, then hostile edits: truncation around word boundaries, offset/length words set to n-33..n+1, 2^16, 2^31, 2^32, 2^62, 2^63, 2^64-1). Oracles: Validate ok => Unmarshal(Marshal(d)) == d; Validate ok => ToFilterQuery succeeds; Match never panics, allocates <= 64 KiB + 4*(|data|+|args|), equals the reference semantics of docs/event.md whenever every reference lies inside the log; Match => log passes an independent eth_getLogs filter evaluation of ToFilterQuery. non-trivial = dynamic reference pointing outside the data, topic BytesEq whose argument is not 32 bytes, or a log matching all (>=1) predicates")
 	rec.Assume("missing topics and dynamic references that leave the log data are 'not well formed': any yes/no answer is accepted there, only panics/allocation are judged")
 	runRapid(t, N(5000, 300000), c17MatchProp(rec))
 }
